@@ -100,9 +100,15 @@ class World:
         k = self.key("findall", pattern, raw)
         # the first 3 extraction patterns may hit; the remaining ones never do (bounds the world)
         self.seen_patterns.setdefault(pattern, len(self.seen_patterns))
-        o = self.outcome(k, ["none", "one"]) if self.seen_patterns[pattern] < 3 else "none"
+        o = self.outcome(k, ["none", "one", "whole"]) if self.seen_patterns[pattern] < 3 else "none"
         if o == "none":
             return []
+        if o == "whole":
+            # the match is the entire (stripped) raw text: same characters, still derived from it
+            wk = ("whole",) + k[1:]
+            if wk not in self.memo:
+                self.memo[wk] = Text(str(raw).strip(), raw)
+            return [self.memo[wk]]
         pk = ("piece",) + k[1:]
         if pk not in self.memo:
             self.memo[pk] = Text(f"piece<{pattern[:8]}>", raw)
@@ -314,9 +320,10 @@ def real_table():
         i = c.choice("instance", list(range(len(INSTANCES))))
         schema, inst = INSTANCES[i]
         op = c.choice("corruption", sorted(CORRUPT))
-        order = c.choice("order", ["default", "strict_only", "repair_first", "lenient_extraction"])
+        order = c.choice("order", ["default", "strict_only", "repair_first", "lenient_extraction", "extraction_first"])
         strategies = {"default": None, "strict_only": [FoldingStrategy.STRICT], "repair_first": [FoldingStrategy.REPAIR, FoldingStrategy.STRICT],
-                      "lenient_extraction": [FoldingStrategy.LENIENT, FoldingStrategy.EXTRACTION]}[order]
+                      "lenient_extraction": [FoldingStrategy.LENIENT, FoldingStrategy.EXTRACTION],
+                      "extraction_first": [FoldingStrategy.EXTRACTION, FoldingStrategy.STRICT]}[order]
         clean = _json.dumps(inst)
         raw = CORRUPT[op](clean)
         chap = Chaperone(silent=True)
